@@ -200,11 +200,16 @@ func c13GrpcInstall(c *Ctx) {
 			if RetNil(x.Fn, s, 0) == "nonnil" {
 				return
 			}
+			// the CA file is set on this path: len(f) != 0, len(f) > 0 or f != ""
 			caSet := false
-			for k, v := range s.m {
-				if strings.HasPrefix(k, "p:#0==len($recv.TLSCaFile)") && v == "F" {
-					caSet = true
-				}
+			if eq, known := relLookup(s, "#0", "==", "len($recv.TLSCaFile)"); known && !eq {
+				caSet = true
+			}
+			if lt, known := relLookup(s, "#0", "<", "len($recv.TLSCaFile)"); known && lt {
+				caSet = true
+			}
+			if eq, known := relLookup(s, `#""`, "==", "$recv.TLSCaFile"); known && !eq {
+				caSet = true
 			}
 			if caSet {
 				seen++
@@ -213,6 +218,7 @@ func c13GrpcInstall(c *Ctx) {
 				}
 			}
 		}})
+		b3.InlineOwnHelpers()
 		x3 := NewExec(c.P.FlowOf(ft), b3)
 		x3.Run(newSt())
 		R.Check(good && seen > 0, "R13e", c.Cfg+"config.setTLSConfig:ca-implies-config", c.P.Pos(ft.Decl.Pos()), "with a CA file every successful return of setTLSConfig leaves c.TLSConfig non-nil",
